@@ -687,6 +687,40 @@ func checkHandoffCounts(r3 *core.RuleRun, p *producerImpl, name string, hset map
 			}}.CanReach(h, h)
 			r3.Check(!again, name+":retry-only-after-error", h.Pos(), "the hand-off repeats only through its error edge", "the hand-off can repeat although it succeeded: duplicates")
 			r3.Check(retryBounded(fn, h, p.loop), name+":retry-bounded", h.Pos(), "retry loop exits on a counter reaching a configured limit", "the retry loop has no counter test against a configured limit: an unreachable sink blocks the queue forever")
+			// connection repair: when the back-end keeps a connection that this function replaces after a failure, every
+			// way from a failed hand-off to the next message passes the test that decides the replacement - otherwise a
+			// configuration that gives up early (retry limit 0) never reconnects and every later message is lost
+			var repairTest *ssa.If
+			allInstrs(fn, func(ins ssa.Instruction) {
+				st, ok := ins.(*ssa.Store)
+				if !ok || !p.loop.Blocks[st.Block()] {
+					return
+				}
+				if _, f, ok := core.FieldOf(st.Addr); !ok || !strings.Contains(strings.ToLower(f.Name()), "conn") {
+					return
+				}
+				// the nearest test on the failed hand-off's error that controls the redial
+				for b := st.Block(); b != nil && repairTest == nil; b = b.Idom() {
+					if ifi, ok := b.Instrs[len(b.Instrs)-1].(*ssa.If); ok && b != st.Block() {
+						if core.BackwardSlice(ifi.Cond, core.SliceOpts{})[e] {
+							if _, _, isNil := core.NilCompare(ifi.Cond); !isNil {
+								repairTest = ifi
+							}
+						}
+					}
+				}
+			})
+			if repairTest != nil {
+				bypass := false
+				w := core.Walk{Blocked: func(i ssa.Instruction) bool { return i == ssa.Instruction(repairTest) }, EdgeOK: nilEdgeFilter(e, false)}
+				for i := range w.ReachInstrs(h) {
+					if i.Block() == p.loop.Header && i == p.loop.Header.Instrs[0] {
+						bypass = true
+					}
+				}
+				r3.Check(!bypass, name+":repair-before-giving-up", repairTest.Pos(), "every path from a failed hand-off to the next message passes the connection-repair test",
+					"after a failed hand-off the next message can be reached without passing the test that redials a broken connection (the give-up check comes first): with a retry limit of 0 the producer never reconnects and every later message is dropped")
+			}
 		}
 	} else if all.Max["latch"] > 1 {
 		r3.Fail(name+":handoff-max", p.recv.Pos(), fmt.Sprintf("a dequeued message can be handed over %s times", fmtRange(all, "latch")))
